@@ -141,6 +141,47 @@ pub fn run(env: &Env) -> Report {
             if rep.samples.len() < 3 { rep.sample(json!({"layout": layout, "opts": opts.bits_str(), "events": a.events})); }
             let _ = std::fs::remove_dir_all(&xdg_b); let _ = std::fs::remove_dir_all(&xdg);
         }
+        // "any number of earlier words": ONE context ends word after word (hundreds of distinct word parts, every way of ending in turn);
+        // now and then the next word — a base with a suffix, typed key by key — is also typed into a brand-new context over the same user
+        // directory: candidates, preselection and flag agree after every key
+        if ui % 8 == 3 {
+            let pools = super::common::WordPools::new(&env.data);
+            let case = format!("c06-{}-long", ui);
+            t.line(&format!("case {}", case));
+            let xdg = env.fresh_xdg(&case);
+            let mut opts = Opts::none(); opts.phonetic_suggestion = true; opts.smart_quote = ui % 16 == 3;
+            if let Some(mut a) = Sess::new(&mut t, &env.data, "long", PHONETIC, opts, &xdg) {
+                a.follow_sel = false;
+                let nwords = if env.quick() { 90 } else { 800 };
+                'words: for wi in 0..nwords {
+                    let base = { let mut w = pools.word(&mut rng); let mut g = 0; while (!w.chars().all(|c| c.is_ascii_alphabetic()) || w.len() < 3) && g < 50 { w = pools.word(&mut rng); g += 1; } w };
+                    if !base.chars().all(|c| c.is_ascii_alphabetic()) { continue; }
+                    let txt: String = format!("{}{}", base, rng.pick(&pools.suffixes)).chars().filter(|c| crate::code_ok(*c)).take(16).collect();
+                    if wi % 3 == 2 {
+                        a.clear_events();
+                        let mut b = match Sess::new(&mut t, &env.data, "new", PHONETIC, opts, &xdg) { Some(mut s) => { s.follow_sel = false; s } None => break };
+                        for ch in txt.chars() {
+                            let code = code_for_char(ch).unwrap();
+                            let (oa, ob) = (a.key(&mut t, code, 0, 0), b.key(&mut t, code, 0, 0));
+                            let (na, nb) = (a.imp.ongoing(), b.imp.ongoing());
+                            let eq = match (&oa, &ob) { (Obs::Full { cands: c1, sel: s1, aux: a1, .. }, Obs::Full { cands: c2, sel: s2, aux: a2, .. }) => c1 == c2 && s1 == s2 && a1 == a2, (x, y) => x == y };
+                            rep.count("long-lived-key");
+                            if !eq || na != nb {
+                                rep.violation("C06", "leak-into-next-word", format!("a context that has ended {} words: typing {:?} shows {:?}, a brand-new context {:?}", wi, txt, render_obs(&oa, na), render_obs(&ob, nb)),
+                                    json!({"stream": "c06", "layout": PHONETIC, "opts": opts.bits_str(), "words_ended_before": wi, "events": a.events, "fresh_events": b.events}));
+                                break 'words;
+                            }
+                        }
+                        b.finish(&mut t); t.line("drop new");
+                        rep.eval(Some(&format!("long|{}|{}", ui, txt)));
+                    } else { a.type_text(&mut t, &txt); }
+                    // every way of ending a word in turn (the commit takes the index on display: nothing is learned)
+                    match wi % 4 { 0 => { a.finish(&mut t); } 1 => { a.backspace(&mut t, true); } 2 => { match &a.last { Obs::Full { sel, cands, .. } if *sel < cands.len() => { let i = *sel; a.commit(&mut t, i); } _ => { a.finish(&mut t); } } } _ => { for _ in 0..(txt.chars().count() + 2) { if !a.imp.ongoing() { break; } a.backspace(&mut t, false); } if a.imp.ongoing() { a.finish(&mut t); } } }
+                    if a.imp.ongoing() { rep.violation("C06", "session-after-terminating-event", format!("ongoing after word {} ended (way {})", wi, wi % 4), json!({"stream": "c06", "layout": PHONETIC, "opts": opts.bits_str(), "events": a.events})); break; }
+                }
+                t.line("drop long");
+            }
+        }
         t.flush();
         rep
     });
